@@ -3,6 +3,7 @@
 P=$1; shift
 git -C /repo apply "$P" || { echo "patch does not apply"; exit 3; }
 trap 'git -C /repo checkout -- . ; git -C /repo clean -fdq' EXIT
+export VERIF_OUT=/tmp/mut_out; mkdir -p $VERIF_OUT
 for p in "$@"; do
   s=$(date +%s); ./check $p ${TIER:-quick} > /tmp/mut_$p.log 2>&1; rc=$?; e=$(date +%s)
   echo "$p rc=$rc $((e-s))s viol=$(grep -c '^VIOLATION' /tmp/mut_$p.log) incon=$(grep -c '^INCONCLUSIVE' /tmp/mut_$p.log)"
